@@ -7,7 +7,8 @@ import (
 	"strings"
 )
 
-// Script is a parsed generated SQL file.
+// Script is a parsed generated SQL file. It is not modified by Call / EvalCheck,
+// which may be used from several goroutines.
 type Script struct {
 	Funcs   map[string]*Func // by lower-cased name
 	Checks  []Check
@@ -58,6 +59,8 @@ func ParseScript(sql string) (*Script, error) {
 			}
 			s.Funcs[f.Name] = f
 		case reKnown.MatchString(st):
+		case strings.Contains(st, "$$"):
+			return nil, fmt.Errorf("vpg: statement with a $$ body that is not a CREATE FUNCTION: %s", excerpt(st))
 		default:
 			m := reCheck.FindStringSubmatch(st)
 			if m == nil || !balanced(m[3]) {
